@@ -2,6 +2,7 @@ SPECIFICATION TraceSpec
 CONSTANTS
   Deviations = {}
   Family = "req"
+  PathDepth = 2
 CONSTRAINT HWM
 POSTCONDITION TraceAccepted
 INVARIANTS ObservedTableWellFormed PropertyHolds
